@@ -373,6 +373,24 @@ def mux_check(prop, tier, seed, replay):
                 transitions += nstates
                 mc_runs.append(dict(config="MC_MuxSched_ka (simulation)", schedules=len(sch), states_generated=nstates))
                 batches.append(("tlc-sched-ka", out))
+            # 2b''. C05 / C06 (and C02 in the thorough tier): one implementation test per NODE of the bounded state graph at
+            #     the simulator's grain -- breadth-first model checking of MC_MuxSched.tla in cover mode prints a shortest
+            #     schedule for every distinct (command, resulting abstract state); the maximal ones are executed
+            if prop in ("C05", "C06") or (prop == "C02" and tier == "thorough"):
+                import tlc_sched
+                sch, nodes, _ = tlc_sched.cover_schedules("MC_MuxCover_q.cfg" if tier == "quick" else "MC_MuxCover.cfg", workers=10)
+                if nodes < 1000 or not sch:
+                    raise ToolError("vacuous cover: too few nodes")
+                sj = os.path.join(work, "cover.json")
+                json.dump(sch, open(sj, "w"))
+                out = os.path.join(work, "cover.ndjson")
+                rc, o = vlib.run([bin_path, "script", sj, out], timeout=3000)
+                if rc not in (0, 3):
+                    raise ToolError("mux_sim script failed on the cover schedules: " + o[-400:])
+                states += nodes
+                transitions += nodes
+                mc_runs.append(dict(config="MC_MuxSched cover mode (breadth-first)", nodes_command_x_state=nodes, schedules=len(sch)))
+                batches.append(("tlc-cover", out))
             # 2c. C08: fault enumeration -- every end-of-connection cause at every k-th prefix of fault-free
             #     specification behaviours, on each endpoint, followed by a run to quiescence
             if prop == "C08":
